@@ -169,7 +169,9 @@ class SymBoard:
     def value(self):
         bbs = tuple(bb(x) for x in self.pcs) + (bb(self.white), bb(self.black), bb(self.all))
         hist = Seq.of([PREFIX, self.prev_value()])
-        ph = SetV(self.ph) if PH_KIND[0] == 'set' else KeyLog(self.ph, ())
+        if not hasattr(self, '_ph_n0'):
+            self._ph_n0 = z3.BitVec(self.tag + '_ph_older_len', 64)
+        ph = SetV(self.ph) if PH_KIND[0] == 'set' else KeyLog(self.ph, (), self._ph_n0)
         return (color_v(self.turn), self.fullmove, opt_u8_v(self.ep_some, self.ep_file), hist, ph, bbs, (self.zkey,))
 
     def domain(self):
@@ -382,7 +384,7 @@ def ph_differs(a, b):
     if isinstance(a, KeyLog) and isinstance(b, KeyLog):
         if len(a.ents) != len(b.ents):
             return z3.BoolVal(True)
-        return z3.Or(a.base != b.base, *[x != y for x, y in zip(a.ents, b.ents)])
+        return z3.Or(a.base != b.base, a.n0 != b.n0, *[x != y for x, y in zip(a.ents, b.ents)])
     raise Unsupported('comparing position records of different kinds')
 
 
